@@ -35,9 +35,71 @@ type Universe struct {
 	cg      *callgraph.Graph
 	repo    string
 	callers map[*ssa.Function][]ssa.CallInstruction
+	overlay map[string][]byte // rewritten sources (new helper functions re-merged into their callers), by file name
 }
 
+// loadUniverse loads the packages and, when the tree contains new helper functions that the reference inventory does
+// not know, loads them again with those helpers substituted back at their call sites (remerge.go)
 func loadUniverse(repo string, name string, rel []string, goos string) (*Universe, error) {
+	u, err := loadOnce(repo, name, rel, goos, nil)
+	if err != nil || os.Getenv("ZNCHECK_NO_REMERGE") != "" {
+		return u, err
+	}
+	acc := map[string][]byte{}
+	var log []string
+	for round := 0; round < 4; round++ {
+		ov, lg := remergeOverlay(u, acc)
+		if len(ov) == 0 {
+			if round == 0 {
+				log = append(log, lg...)
+			}
+			break
+		}
+		for k, v := range ov {
+			acc[k] = v
+		}
+		u2, err2 := loadOnce(repo, name, rel, goos, acc)
+		if err2 != nil && u2 != nil {
+			// imports that only the removed helpers used
+			again := false
+			for _, p := range u2.Pkgs {
+				if fixUnusedImports(u2.Fset, p, acc) {
+					again = true
+				}
+			}
+			if again {
+				u2, err2 = loadOnce(repo, name, rel, goos, acc)
+			}
+		}
+		if err2 != nil {
+			// the substitution did not type-check: analyse the tree as it is
+			for k := range ov {
+				delete(acc, k)
+			}
+			log = append(log, fmt.Sprintf("re-merging of new helper functions was abandoned (%s universe): %v", name, firstLine(err2.Error())))
+			break
+		}
+		u = u2
+		log = append(log, lg...)
+	}
+	if len(acc) > 0 {
+		u.overlay = acc
+	}
+	remergeLog = append(remergeLog, log...)
+	return u, nil
+}
+
+func firstLine(s string) string {
+	if i := strings.Index(s, "\n"); i >= 0 {
+		lines := strings.SplitN(s, "\n", 3)
+		if len(lines) > 1 {
+			return lines[0] + " " + strings.TrimSpace(lines[1])
+		}
+	}
+	return s
+}
+
+func loadOnce(repo string, name string, rel []string, goos string, overlay map[string][]byte) (*Universe, error) {
 	fset := token.NewFileSet()
 	env := append(os.Environ(),
 		"GOFLAGS=-mod=mod", "GOPROXY=off", "GOSUMDB=off", "GOTOOLCHAIN=local", "GOWORK=off",
@@ -50,10 +112,11 @@ func loadUniverse(repo string, name string, rel []string, goos string) (*Univers
 		Mode: packages.NeedName | packages.NeedFiles | packages.NeedCompiledGoFiles | packages.NeedImports |
 			packages.NeedDeps | packages.NeedTypes | packages.NeedSyntax | packages.NeedTypesInfo |
 			packages.NeedTypesSizes | packages.NeedModule,
-		Dir:   repo,
-		Fset:  fset,
-		Env:   env,
-		Tests: false,
+		Dir:     repo,
+		Fset:    fset,
+		Env:     env,
+		Tests:   false,
+		Overlay: overlay,
 	}
 	var patterns []string
 	for _, r := range rel {
@@ -95,7 +158,11 @@ func loadUniverse(repo string, name string, rel []string, goos string) (*Univers
 		if len(errs) > 8 {
 			errs = errs[:8]
 		}
-		return nil, fmt.Errorf("load %s: type errors in analysed packages:\n  %s", name, strings.Join(errs, "\n  "))
+		var partial *Universe
+		if overlay != nil {
+			partial = u
+		}
+		return partial, fmt.Errorf("load %s: type errors in analysed packages:\n  %s", name, strings.Join(errs, "\n  "))
 	}
 	for _, r := range rel {
 		if _, ok := u.Pkgs[r]; !ok {
